@@ -198,8 +198,8 @@ HOSTILE = [
 
 def gen_case(r):
     t = gen_target(r, 3)
-    if not isinstance(t, (dict, list)):
-        t = {'a': t}
+    if not isinstance(t, (dict, list)) and r.random() < 0.7:
+        t = {'a': t}                      # otherwise a top-level scalar (0, '', null, false, ...): only Path() / () specs make sense
     c = {'kind': 'run', 'target': t, 'indent': r.choice([None, None, 0, 1, 4, -1]), 'scalar': r.random() < 0.2,
          'tfmt': 'json', 'sfmt': r.choice(['python', 'python', 'python', 'json']), 'via': 'inproc'}
     x = r.random()
@@ -212,6 +212,8 @@ def gen_case(r):
     elif x < 0.33:
         c['tfmt'] = r.choice(['xml', 'JSON', ''])
     spec = gen_spec(r, t, r.choice([0, 1, 2, 2, 3]))
+    if not isinstance(t, (dict, list)) or (not t and r.random() < 0.6):
+        spec = r.choice([(), (), {'n': ()}, [()], 'zz'])
     if c['sfmt'] == 'json':
         try:
             c['spec_text'] = json.dumps(_tuples_to_lists_forbidden(spec))
